@@ -270,7 +270,12 @@ class HistoryMonitor:
 
     def gebv_site(self, G, sc):
         """The limits are what the reference says, the breeding values the library reported are not genotype @ effects."""
-        name = "gebv_numpy" if sc == "sc" else "gebv"
-        return ("%s.%s" % (defining_class(self.model, name), name) + ("" if sc == "sc" else "(...).unscale()"),
+        d = G.gdev.get(sc)
+        if isinstance(d, tuple):     # (method, route label) of the first route whose values are off
+            site = "%s.%s" % (defining_class(self.model, d[0]), d[1])
+        else:
+            name = "gebv_numpy" if sc == "sc" else "gebv"
+            site = "%s.%s" % (defining_class(self.model, name), name) + ("" if sc == "sc" else "(...).unscale()")
+        return (site,
                 "more than 4096 taxa" if G.n > 4096 else "at most 4096 taxa",
                 "reported breeding values == genotype @ effects (+ intercept); the limits are right, the values leave them")
